@@ -764,3 +764,38 @@ where
         marker: PhantomData,
     }
 }
+
+/// Verification hooks: plain wrappers around the private path functions of this module.
+/// Only compiled with the `verif_hooks` feature, never part of the public API.
+#[cfg(feature = "verif_hooks")]
+#[doc(hidden)]
+pub mod verif_hooks {
+    use super::*;
+
+    /// `get_locale_from_path` as is.
+    pub fn locale_from_path<L: Locale>(path: &str, base_path: &str) -> Option<L> {
+        get_locale_from_path::<L>(path, base_path)
+    }
+
+    /// `get_new_path` on a `Location` built from plain strings (must be called inside a reactive `Owner`).
+    pub fn new_path<L: Locale>(
+        pathname: &str,
+        search: &str,
+        hash: &str,
+        base_path: &str,
+        new_locale: L,
+        locale: Option<L>,
+        segments: HashMap<L, Vec<Vec<PathSegment>>>,
+    ) -> String {
+        let (pathname, search, hash) = (pathname.to_owned(), search.to_owned(), hash.to_owned());
+        let location = Location {
+            pathname: Memo::new(move |_| pathname.clone()),
+            search: Memo::new(move |_| search.clone()),
+            query: Memo::new(|_| Default::default()),
+            hash: Memo::new(move |_| hash.clone()),
+            state: RwSignal::new(Default::default()).read_only(),
+        };
+        let segments = RouteSegments(Arc::new(Mutex::new(segments)));
+        get_new_path(&location, base_path, new_locale, locale, segments)
+    }
+}
